@@ -98,6 +98,8 @@ def gen_one(rng, tier, scale=False):
 
 
 def gen_cases(tier, seed):
+    # the repository's own tests as a workload (vf/suite_monitor.py)
+    yield {'scenario': 'suite'}
     # whole "game sessions" (vf/session.py): the features used together,
     # judged by the self-consistency invariants of this property
     for i in range(150 if tier == 'quick' else 16 * 300):
@@ -112,6 +114,9 @@ def gen_cases(tier, seed):
 
 
 def run_case(case):
+    if case.get('scenario') == 'suite':
+        from vf import suite_monitor
+        return suite_monitor.run_suite(ID)
     if case.get('scenario') == 'session':
         return session.run(case, 'C07')
     desper = import_desper()
